@@ -1026,4 +1026,4 @@ Definition current_behaviour : behaviour :=
      b_replace_all_atomic := true;    (* fixed in /repo (new finding ) *)
      b_feature_null_guard := true;    (* fixed in /repo (#14 ) *)
      b_delsource_by_id := true;       (* fixed in /repo: bec435c (new finding (C04)) *)
-     b_valid_reachable := true       (* NOT fixed in /repo: notes/proposed-fixes/C04-1-isValidEntity-root-reachable.patch *) |}.
+     b_valid_reachable := true        (* fixed in /repo: 1b5d80a *) |}.
